@@ -1583,8 +1583,15 @@ def generic_partial_eq(ctx):
         for _ in range(n):
             args = [ex.load(ctx.st, a.cell, a.path) if isinstance(a, Ref) and isinstance(ex.load(ctx.st, a.cell, a.path), Ref) else a for a in args]
         eq_callee = '<%s as PartialEq>::eq' % mm.group(2)
+    # Box<T> / Arc<T> / Rc<T> compare their pointees with T's own equality
+    for _ in range(3):
+        bm = re.match(r'^<(?:std::boxed::|std::sync::|std::rc::|alloc::boxed::|alloc::sync::|alloc::rc::)?(?:Box|Arc|Rc)<(.*)> as PartialEq>::eq$', eq_callee, re.S)
+        if not bm:
+            break
+        args = [ex.load(ctx.st, a.cell, a.path) if isinstance(a, Ref) and isinstance(ex.load(ctx.st, a.cell, a.path), Ref) else a for a in args]
+        eq_callee = '<%s as PartialEq>::eq' % bm.group(1).strip()
     try:
-        target = ex.db.resolve(eq_callee, ctx.fr.fn, ex)
+        target = ex.db.resolve(eq_callee, ctx.fr.fn if ctx.fr is not None else None, ex)
     except Exception:
         target = None
     if target is not None:
